@@ -255,4 +255,171 @@ theorem gcdextLoop_norm (b q1 : Int) (hb : 0 < b) (fuel : Nat) (g f s s1 t t1 : 
       have := fmod_natAbs_lt g f h0
       omega
 
+theorem gcdext_norm_pos (a b : Int) (hb : 0 < b) :
+    ∃ g s t, gcdext a b = .ok (g, s, t) ∧ 0 < g ∧ GmpNormal a b g s t ∧
+      ∃ s0 t0, gcdextLoop (b.natAbs + 2) a b 1 0 0 1 = .ok (g, s0, t0) := by
+  set q1 := Int.fdiv a b with hq1
+  set r := Int.fmod a b with hr
+  obtain ⟨hdm, hr0, hrb⟩ := (Int.fdiv_fmod_unique (a := a) (b := b) (r := r) (q := q1) hb).mp ⟨rfl, rfl⟩
+  have hb0 : b ≠ 0 := by omega
+  have hstep : gcdextLoop (b.natAbs + 2) a b 1 0 0 1 = gcdextLoop (b.natAbs + 1) b r 0 1 1 (-q1) := by
+    simp only [gcdextLoop, if_neg hb0]
+    simp [hq1, hr]
+  have hinv : GInv b q1 b r 0 1 1 (-q1) :=
+    ⟨hr0, hrb, Or.inr ⟨le_refl _, by omega, by ring⟩, fun _ => ⟨rfl, rfl, rfl⟩,
+      fun _ => Or.inl ⟨by simp; omega, by simp; omega⟩⟩
+  obtain ⟨g, s, t, hl, hg, hcase⟩ := gcdextLoop_norm b q1 hb (b.natAbs + 1) b r 0 1 1 (-q1) hinv (by omega)
+  obtain ⟨g2, s2, t2, hl2, hbz, hgcd⟩ := gcdextLoop_spec a b (b.natAbs + 2) a b 1 0 0 1
+    (by ring) (by ring) rfl (by omega)
+  rw [hstep, hl] at hl2
+  simp only [Except.ok.injEq, Prod.mk.injEq] at hl2
+  obtain ⟨rfl, rfl, rfl⟩ := hl2
+  have hga : g ∣ a := by
+    have h1 : ((Int.gcd a b : Nat) : Int) ∣ a := Int.gcd_dvd_left a b
+    rw [← hgcd] at h1
+    have : (g.natAbs : Int) = g := by omega
+    rwa [this] at h1
+  have hgb : g ∣ b := by
+    have h1 : ((Int.gcd a b : Nat) : Int) ∣ b := Int.gcd_dvd_right a b
+    rw [← hgcd] at h1
+    have : (g.natAbs : Int) = g := by omega
+    rwa [this] at h1
+  have hbabs : (b.natAbs : Int) = b := by omega
+  have hunf : gcdext a b =
+      if ((a < 0 ∧ 0 < b) ∨ (b < 0 ∧ 0 < a)) ∧ (b.natAbs : Int) = 2 * g then
+        .ok (g, -s, t - s * ((a.natAbs : Int) / g))
+      else .ok (g, s, t) := by
+    have hn : (if g < 0 then (-g, -s, -t) else if g = 0 then (g, 0, t) else (g, s, t)) = (g, s, t) := by
+      rw [if_neg (by omega), if_neg (by omega)]
+    simp only [gcdext, hstep, hl, hn]
+  rw [hunf, hbabs]
+  rcases hcase with ⟨c1, c2⟩ | ⟨c1, c2, c3⟩
+  · -- generic
+    have habs : 2 * g * |s| < b := by
+      rcases abs_cases s with ⟨h, _⟩ | ⟨h, _⟩ <;> rw [h]
+      · exact c1
+      · exact c2
+    have hne : b ≠ 2 * g := by
+      intro h2
+      have hs0 : |s| = 0 := by
+        have : 2 * g * |s| < 2 * g * 1 := by linarith
+        have := lt_of_mul_lt_mul_left this (by omega)
+        have := abs_nonneg s
+        omega
+      have hs00 : s = 0 := abs_eq_zero.mp hs0
+      rw [hs00, h2] at hbz
+      have : g * (2 * t - 1) = 0 := by linarith
+      rcases Int.mul_eq_zero.mp this with h | h <;> omega
+    rw [if_neg (fun h => hne h.2)]
+    exact ⟨g, s, t, rfl, hg, norm_generic a b g s t hb hg hga hgb hbz habs, s, t, by rw [hstep, hl]⟩
+  · -- |b| = 2g
+    subst c2 c3
+    have ha : a = g * (2 * q1 + 1) := by rw [c1] at hbz; linarith
+    by_cases hq : 0 ≤ q1
+    · have hapos : 0 < a := by rw [ha]; positivity
+      rw [if_neg (by omega)]
+      refine ⟨g, 1, -q1, rfl, hg, ?_, 1, -q1, by rw [hstep, hl]⟩
+      rw [ha, c1]; exact (norm_caseB g q1 hg).1 hq
+    · have haneg : a < 0 := by rw [ha]; nlinarith
+      rw [if_pos ⟨Or.inl ⟨haneg, hb⟩, c1⟩]
+      have habs : (a.natAbs : Int) = g * (-(2 * q1 + 1)) := by
+        have : (a.natAbs : Int) = -a := by omega
+        rw [this, ha]; ring
+      have hdiv : (a.natAbs : Int) / g = -(2 * q1 + 1) := by
+        rw [habs]; exact Int.mul_ediv_cancel_left _ (by omega)
+      rw [hdiv]
+      refine ⟨g, -1, q1 + 1, by congr 3; ring, hg, ?_, 1, -q1, by rw [hstep, hl]⟩
+      rw [ha, c1]; exact (norm_caseB g q1 hg).2 (by omega)
+
+theorem gcdextLoop_neg (fuel : Nat) (g f s s1 t t1 : Int) :
+    gcdextLoop fuel (-g) (-f) s s1 t t1 =
+      (match gcdextLoop fuel g f s s1 t t1 with
+       | .ok (g', s', t') => .ok (-g', s', t')
+       | .error e => .error e) := by
+  induction fuel generalizing g f s s1 t t1 with
+  | zero => rfl
+  | succ n ih =>
+    simp only [gcdextLoop]
+    by_cases h0 : f = 0
+    · subst h0; simp
+    · rw [if_neg h0, if_neg (by omega), Int.neg_fdiv_neg, Int.neg_fmod_neg, ih]
+
+theorem GmpNormal_neg (a b g s t : Int) (h : GmpNormal (-a) (-b) g s t) : GmpNormal a b g (-s) (-t) := by
+  unfold GmpNormal at h ⊢
+  simp only [abs_neg, Int.sign_neg, neg_eq_zero] at h ⊢
+  by_cases hab : |a| = |b|
+  · rw [if_pos hab] at h ⊢
+    exact ⟨h.1, by rw [h.2]; ring⟩
+  · rw [if_neg hab] at h ⊢
+    obtain ⟨h1, h2⟩ := h
+    constructor
+    · split at h1
+      · next hc => rw [if_pos hc, h1]; ring
+      · next hc => rw [if_neg hc]; exact h1
+    · split at h2
+      · next hc => rw [if_pos hc, h2]; ring
+      · next hc => rw [if_neg hc]; exact h2
+
+theorem gcdext_neg_of_loop (a b g0 s0 t0 : Int) (hg0 : 0 < g0)
+    (hl : gcdextLoop (b.natAbs + 2) a b 1 0 0 1 = .ok (g0, s0, t0)) :
+    gcdext (-a) (-b) =
+      (match gcdext a b with
+       | .ok (g, s, t) => .ok (g, -s, -t)
+       | .error e => .error e) := by
+  have hl' : gcdextLoop (b.natAbs + 2) (-a) (-b) 1 0 0 1 = .ok (-g0, s0, t0) := by
+    rw [gcdextLoop_neg, hl]
+  have hn1 : (if g0 < 0 then (-g0, -s0, -t0) else if g0 = 0 then (g0, 0, t0) else (g0, s0, t0)) = (g0, s0, t0) := by
+    rw [if_neg (by omega), if_neg (by omega)]
+  have hn2 : (if -g0 < 0 then (- -g0, -s0, -t0) else if -g0 = 0 then (-g0, 0, t0) else (-g0, s0, t0))
+      = (g0, -s0, -t0) := by
+    rw [if_pos (by omega), neg_neg]
+  have hc : (((-a < 0 ∧ 0 < -b) ∨ (-b < 0 ∧ 0 < -a)) ∧ (b.natAbs : Int) = 2 * g0) ↔
+      (((a < 0 ∧ 0 < b) ∨ (b < 0 ∧ 0 < a)) ∧ (b.natAbs : Int) = 2 * g0) := by
+    constructor <;> rintro ⟨h1, h2⟩ <;> exact ⟨by omega, h2⟩
+  simp only [gcdext, Int.natAbs_neg, hl, hl', hn1, hn2]
+  by_cases hcond : ((a < 0 ∧ 0 < b) ∨ (b < 0 ∧ 0 < a)) ∧ (b.natAbs : Int) = 2 * g0
+  · rw [if_pos hcond, if_pos (hc.mpr hcond)]
+    simp only []
+    congr 3; ring
+  · rw [if_neg hcond, if_neg (fun h => hcond (hc.mp h))]
+
+theorem gcdext_norm_zero (a : Int) : ∃ g s t, gcdext a 0 = .ok (g, s, t) ∧ GmpNormal a 0 g s t := by
+  have hl : gcdextLoop ((0 : Int).natAbs + 2) a 0 1 0 0 1 = .ok (a, 1, 0) := by simp [gcdextLoop]
+  have hcond : ¬ (((a < 0 ∧ (0 : Int) < 0) ∨ ((0 : Int) < 0 ∧ 0 < a)) ∧ (((0 : Int).natAbs : Nat) : Int) = 2 * a.natAbs) := by
+    omega
+  rcases lt_trichotomy a 0 with ha | ha | ha
+  · refine ⟨-a, -1, 0, ?_, ?_⟩
+    · simp only [gcdext, hl, if_pos ha]
+      rw [if_neg (by omega)]; simp
+    · unfold GmpNormal
+      rw [if_neg (by simp; omega), if_pos (Or.inl rfl), if_neg]
+      · exact ⟨(Int.sign_eq_neg_one_of_neg ha).symm, by simp; omega⟩
+      · rintro (h | h)
+        · omega
+        · rw [abs_of_neg ha] at h; omega
+  · subst ha
+    refine ⟨0, 0, 0, by decide, ?_⟩
+    unfold GmpNormal; simp
+  · refine ⟨a, 1, 0, ?_, ?_⟩
+    · simp only [gcdext, hl]
+      rw [if_neg (by omega), if_neg (by omega)]
+      rw [if_neg (by omega)]
+    · unfold GmpNormal
+      rw [if_neg (by simp; omega), if_pos (Or.inl rfl), if_neg]
+      · exact ⟨(Int.sign_eq_one_of_pos ha).symm, by simp; omega⟩
+      · rintro (h | h)
+        · omega
+        · rw [abs_of_pos ha] at h; omega
+
+/-- gcdext obeys the GMP normalisation for all integers -/
+theorem gcdext_normal (a b : Int) : ∃ g s t, gcdext a b = .ok (g, s, t) ∧ GmpNormal a b g s t := by
+  rcases lt_trichotomy b 0 with hb | hb | hb
+  · obtain ⟨g, s, t, h1, hg, h2, s0, t0, hl⟩ := gcdext_norm_pos (-a) (-b) (by omega)
+    have := gcdext_neg_of_loop (-a) (-b) g s0 t0 hg hl
+    rw [neg_neg, neg_neg, h1] at this
+    exact ⟨g, -s, -t, this, GmpNormal_neg a b g s t h2⟩
+  · subst hb; exact gcdext_norm_zero a
+  · obtain ⟨g, s, t, h1, _, h2, _⟩ := gcdext_norm_pos a b hb
+    exact ⟨g, s, t, h1, h2⟩
+
 end MpycV.NumTh
